@@ -254,3 +254,30 @@ func TestFindingF18SetFloatMaxPrec(t *testing.T) {
 		}
 	}
 }
+
+// F20: Append read the exponent field of a zero to pick the %g layout and the number of fraction
+// digits; a zero keeps whatever exponent an earlier value left there (x.Sub(x, x), Mul by zero,
+// SetFloat64(0)), so two equal zeros printed differently depending on the variable's history.
+func TestFindingF20StaleExponentOfZero(t *testing.T) {
+	fresh := new(Decimal)
+	for _, lit := range []string{"1e30", "1e-30", "123456789012345678901234567890", "0.001"} {
+		x, _, err := new(Decimal).SetPrec(40).Parse(lit, 10)
+		if err != nil {
+			t.Fatal(err)
+		}
+		x.Sub(x, x) // +0, exponent field untouched
+		if !x.IsZero() {
+			t.Fatalf("%s - %s is not zero", lit, lit)
+		}
+		for _, f := range []byte{'e', 'f', 'g', 'G'} {
+			for _, p := range []int{-1, 0, 1, 6, 10} {
+				if got, want := x.Text(f, p), fresh.Text(f, p); got != want {
+					t.Errorf("zero left by %s-%s: Text(%q, %d) = %q, a fresh zero gives %q", lit, lit, f, p, got, want)
+				}
+			}
+		}
+		if got, want := x.String(), fresh.String(); got != want {
+			t.Errorf("zero left by %s-%s: String() = %q, want %q", lit, lit, got, want)
+		}
+	}
+}
